@@ -87,6 +87,15 @@ def run_one(ch, cfg):
         byz["signer_ud"] = ch.bytes(32, "signer-ud")
     elif deviation == "ui-other-btc-key":
         byz["ui_btc_key"] = Key(scalar(b"otherbtc" + ch.bytes(4, "btc"))).pub33
+        rel = ch.draw(4, "btc.related")
+        if rel == 1:
+            # the operator's key negated: the same X coordinate under the other parity byte - the
+            # public key of another private key
+            byz["ui_btc_key"] = lambda g: bytes([g[0] ^ 1]) + g[1:]
+        elif rel == 2:
+            # the genuine encoding with its last byte changed (whatever that decodes to, it is not the
+            # operator's key)
+            byz["ui_btc_key"] = lambda g: g[:-1] + bytes([g[-1] ^ 1])
     wallet_paths = None
     if keys_alt == "other-wallet-paths":
         if deviation == "other-order":
